@@ -406,9 +406,9 @@ func procScript(rng *plan.Rand, news int) []plan.DevStep {
 	for i := 0; i < news*2+2; i++ {
 		switch x := rng.Intn(20); {
 		case x < 13:
-			s = append(s, plan.DevStep{D: 64}) // a full read
+			s = append(s, plan.DevStep{D: 64, G: rng.Intn(6) == 0}) // a full read (sometimes one during which a GC cycle completes)
 		case x < 16:
-			s = append(s, plan.DevStep{D: rng.Range(1, 15)})
+			s = append(s, plan.DevStep{D: rng.Range(1, 15), G: rng.Intn(6) == 0})
 		case x < 17:
 			s = append(s, plan.DevStep{})
 		case x < 19:
